@@ -154,9 +154,20 @@ pub fn check(m: &Mat, p: &mut Probe) -> Check {
     // is accepted); the function is stateless, so this must not influence the call under test
     match m.ones.len() % 3 {
         1 => {
-            let z = ldpc_toolbox::sparse::SparseMatrix::new(r, n);
-            let w = guarded(|| parity_to_systematic(&z)).map_err(|e| Fail::new("panic", format!("parity_to_systematic panicked on the {r} x {n} zero matrix: {e}")))?;
-            ensure!(matches!(w, Err(Error::NotFullRank)), "zero-matrix", "the {r} x {n} zero matrix was not rejected as rank deficient");
+            // rejected matrix of the same dimensions with content: all rows equal to the case's first
+            // non-empty row (rank 1 < r); for a single row, the zero matrix
+            let mut z = ldpc_toolbox::sparse::SparseMatrix::new(r, n);
+            if r >= 2 {
+                if let Some(src) = m.row_lists().iter().find(|l| !l.is_empty()) {
+                    for i in 0..r {
+                        for &c in src {
+                            z.insert(i, c);
+                        }
+                    }
+                }
+            }
+            let w = guarded(|| parity_to_systematic(&z)).map_err(|e| Fail::new("panic", format!("parity_to_systematic panicked on a {r} x {n} matrix of rank <= 1: {e}")))?;
+            ensure!(matches!(w, Err(Error::NotFullRank)), "zero-matrix", "a {r} x {n} matrix with all rows equal (or zero) was not rejected as rank deficient");
             p.class("after-a-rejected-call");
         }
         2 => {
@@ -198,6 +209,48 @@ pub fn check(m: &Mat, p: &mut Probe) -> Check {
             ensure!(enc.is_ok(), "encoder-rejects", "Encoder::from_h rejects the converted matrix: {enc:?}");
         }
     }
+    // the same matrix object, edited after it was converted once (clear_col, clear_row or set_col to
+    // empty, chosen from the case) and converted again: verdict and tail against the own rank of the
+    // edited matrix
+    if !m.ones.is_empty() && n <= 64 {
+        let mut h2 = hs;
+        let pick = m.ones[(m.ones.len() * 5 + n) % m.ones.len()];
+        let mut m2 = m.clone();
+        let what = match (m.ones.len() + r) % 3 {
+            0 => {
+                h2.clear_col(pick.1);
+                m2.ones.retain(|e| e.1 != pick.1);
+                format!("clear_col({})", pick.1)
+            }
+            1 => {
+                h2.clear_row(pick.0);
+                m2.ones.retain(|e| e.0 != pick.0);
+                format!("clear_row({})", pick.0)
+            }
+            _ => {
+                h2.set_col(pick.1, std::iter::empty::<&usize>());
+                m2.ones.retain(|e| e.1 != pick.1);
+                format!("set_col({}, [])", pick.1)
+            }
+        };
+        let rank2 = m2.to_bits().rank();
+        let res2 = guarded(|| parity_to_systematic(&h2)).map_err(|e| Fail::new("panic", format!("parity_to_systematic panicked on the object after {what}: {e}")))?;
+        match res2 {
+            Err(Error::NotFullRank) => ensure!(rank2 < r, "after-edit", "after {what} on an object that had been converted before: NotFullRank although the edited matrix has rank {rank2} = {r}"),
+            Err(e) => return Err(Fail::new("unexpected-error", format!("unexpected error {e:?} after {what}"))),
+            Ok(hn2) => {
+                ensure!(rank2 == r, "after-edit", "after {what} on an object that had been converted before: the conversion succeeded although the edited matrix has rank {rank2} < {r}");
+                let nb = Mat { rows: r, cols: n, ones: sparse_set(&hn2).into_iter().collect() }.to_bits();
+                ensure!(nb.submatrix_cols(n - r, n).rank() == r, "after-edit", "after {what} on an object that had been converted before: the last {r} columns of the result are not invertible");
+                let mut a: Vec<Vec<bool>> = (0..n).map(|c| m2.to_bits().column(c)).collect();
+                let mut b: Vec<Vec<bool>> = (0..n).map(|c| nb.column(c)).collect();
+                a.sort();
+                b.sort();
+                ensure!(a == b, "after-edit", "after {what}: the columns of the result are not a permutation of the edited matrix's columns");
+            }
+        }
+        p.class("converted-edited-converted-again");
+    }
     Ok(())
 }
 
@@ -238,6 +291,32 @@ fn large_strategy(_t: Tier) -> BoxedStrategy<Mat> {
         .boxed()
 }
 
+/// very wide matrices (more than 2^16 columns): 1..=4 rows, a pivot per row at a generated column
+/// (many of them beyond column 65535) plus a few extra ones; optionally two equal rows
+fn wide_strategy(_t: Tier) -> BoxedStrategy<Mat> {
+    (1usize..=4, 65_537usize..=70_000, proptest::collection::vec(any::<u32>(), 4), proptest::collection::vec((any::<u16>(), any::<u32>()), 0..=12), prop::bool::weighted(0.25))
+        .prop_map(|(r, n, piv, extra, dup)| {
+            let mut set = std::collections::BTreeSet::new();
+            for i in 0..r {
+                // half of the pivots in the last 5000 columns, the others anywhere
+                let c = if piv[i] & 1 == 1 { n - 1 - (piv[i] as usize >> 1) % 5000 } else { (piv[i] as usize >> 1) % n };
+                set.insert((i, c));
+            }
+            for (a, b) in extra {
+                set.insert((idx(a, r), b as usize % n));
+            }
+            if dup && r >= 2 {
+                let src: Vec<usize> = set.iter().filter(|e| e.0 == 0).map(|e| e.1).collect();
+                set.retain(|e| e.0 != r - 1);
+                for c in src {
+                    set.insert((r - 1, c));
+                }
+            }
+            Mat { rows: r, cols: n, ones: set.into_iter().collect() }
+        })
+        .boxed()
+}
+
 /// fuzz-target body: a byte tape decoded into a matrix with r <= n
 pub fn fuzz_bytes(data: &[u8]) -> Check {
     let (h, _) = mat_from_bytes(data, 14, true);
@@ -258,7 +337,7 @@ pub fn property() -> Property {
             }),
             Box::new(Sub {
                 name: "conversion",
-                rule: "r x n binary matrices, 1 <= r <= n <= 12 (thorough 40), in two thirds of the cases after a call on another matrix of the same dimensions on the same thread (the zero matrix, rejected, or [0 | I], accepted), by class: uniform at three densities; full rank by construction (row-mixed [I|A] with permuted columns); rank deficient by construction (row = sum of two others, duplicated row, zero row); pivots at the far right behind leading zero/duplicate columns; zero and duplicate columns; (near-)identity incl. square. Oracle: own GF(2) rank decides Err(NotFullRank) vs Ok, never a panic; Ok result has the same dimensions, the same multiset of columns, an invertible last-r-column block (own rank) and is accepted by Encoder::from_h. Non-trivial = full rank input whose last r columns are not already invertible",
+                rule: "r x n binary matrices, 1 <= r <= n <= 12 (thorough 40), in two thirds of the cases after a call on another matrix of the same dimensions on the same thread (the zero matrix, rejected, or [0 | I], accepted), by class: uniform at three densities; full rank by construction (row-mixed [I|A] with permuted columns); rank deficient by construction (row = sum of two others, duplicated row, zero row); pivots at the far right behind leading zero/duplicate columns; zero and duplicate columns; (near-)identity incl. square. Oracle: own GF(2) rank decides Err(NotFullRank) vs Ok, never a panic; Ok result has the same dimensions, the same multiset of columns, an invertible last-r-column block (own rank) and is accepted by Encoder::from_h. afterwards the same object is edited once (clear_col / clear_row / set_col to empty) and converted again, judged against the own rank of the edited matrix. Non-trivial = full rank input whose last r columns are not already invertible",
                 cases: |t| t.pick(1_000_000, 20_000_000),
                 strategy: |t| strategy(t.pick(12, 40)),
                 check,
@@ -271,6 +350,14 @@ pub fn property() -> Property {
                 strategy: large_strategy,
                 check,
                 health: &[("rank-deficient", 0.15)],
+            }),
+            Box::new(Sub {
+                name: "conversion-wide",
+                rule: "1..=4 rows and 65 537..=70 000 columns (column indices beyond 2^16): a pivot per row at a generated column, half of them among the last 5000 columns, up to 12 extra ones, in a quarter of the cases the last row equal to the first; same oracle",
+                cases: |t| t.pick(300, 10_000),
+                strategy: wide_strategy,
+                check,
+                health: &[],
             }),
         ],
         assumptions: vec!["matrices have at least one row and no more rows than columns, as the property states".into()],
